@@ -175,6 +175,15 @@ func runC19(r *rt.Runner) {
 				g.Cmds = []type1.GlyphOp{{Op: type1.OpMoveTo, Args: []float64{0, 0}}, {Op: type1.OpLineTo, Args: []float64{0, 0}}, {Op: type1.OpClosePath}}
 				o.f("glyph whose box is legitimately zero")
 			}
+			if rng.IntN(3) == 0 {
+				g := f.Glyphs[names[rng.IntN(len(names))]]
+				g.Cmds = nil
+				g.MoveTo(0, 0)
+				g.LineTo(float64(1+rng.IntN(500)), 0)
+				g.LineTo(float64(1+rng.IntN(500)), float64(1+rng.IntN(500)))
+				g.ClosePath()
+				o.f("glyph with an extremal end point at the origin")
+			}
 			c.SetDetail(func() string { return describeFont(f) })
 			glyphs := map[string]bool{}
 			for _, nme := range names {
